@@ -410,6 +410,10 @@ def ro_scenarios(ctx, rnd):
     for b in bases:
         for h in hs:
             out.append(dict(b, type="ro", tsize=512, history=h, fam="histories"))
+    # pinned reproductions of finding F30 (also contained in the family above): intervals of the live object after a
+    # JSON save, and of an object unpickled from a pickle written after a JSON save
+    out.append(dict(bases[0], type="ro", tsize=512, history=["save:json"], fam="pinned-F30"))
+    out.append(dict(bases[1], type="ro", tsize=512, history=["save:json", "save:pkl", "load:pkl"], fam="pinned-F30"))
     # (2) every order of 1..3 parameter names against the outputs' insertion order, 0..4 rows
     pool = ["pc", "pa", "pb"]
     for p in (1, 2, 3):
